@@ -282,6 +282,8 @@ def _run(prop, prop_id, tier, seed, args, workdir, env, watchdog, reasons, t0) -
     if counters:
         print("  monitors: " + ", ".join(f"{k}={v}" for k, v in sorted(counters.items())[:40]))
     if new_violations:
+        for rs in reasons[:5]:
+            print(f"NOTE: also inconclusive in part: {rs[:300]}")
         return 1
     if reasons:
         for rs in reasons[:10]:
